@@ -32,7 +32,7 @@ CHECKS = {
 }
 
 TRACE_TECH = 'Lean 4 theorem by induction over the listener-event trace (invariant preserved by every well-formed event, any number of transactions/flushes/entities) + trace correspondence check (real SQLAlchemy+continuum run vs Lean step function, oracle = Lean Holds predicate on the real tables)'
-TRACE_NOTE = COMMON_NOTE + ('Modelled not verified: SQLAlchemy\'s unit of work (the contract EvOK/WF: fresh increasing transaction ids, one mapper event per object per flush, history flags consistent with stored values, commit flushes first) - assumed by the theorems and monitored on every recorded trace; atomic commit/rollback of the DBMS. Single connection (C09 treats several). Savepoint rollback is excluded from WF (C06).')
+TRACE_NOTE = COMMON_NOTE + ('Modelled not verified: SQLAlchemy\'s unit of work (the contract EvOK/WF: fresh increasing transaction ids, one mapper event per object per flush, history flags consistent with stored values, commit flushes first) - assumed by the theorems and monitored on every recorded trace; atomic commit/rollback of the DBMS. Single connection (C09 treats several). Savepoint rollback is excluded from WF (C06). About 10% of the generated cases run with the session joined into an external connection-level transaction (join_transaction_mode=create_savepoint), 10% of the validity cases with a class-level end_transaction_column_name, 12% with custom operation-type / transaction column names or a custom table_name. An exception raised by continuum inside a step is a failing input (<id>.continuum_raised:<Type>); after a broken correspondence a directed search continues the diverging history with more versioned work before no-failing-input-found is reported.')
 
 CHECKS.update({
     'C02': {
@@ -59,7 +59,7 @@ CHECKS.update({
         'note': TRACE_NOTE + ' Arbitrary custom primaryjoin rewriting (VersionExpressionReflector) and non-versioned targets are covered by correspondence on the standard foreign-key joins only; single-column endpoint keys.',
         'technique': 'Lean 4 theorems over all version-table contents + trace induction for stability + differential correspondence (tables and histories, reference reconstruction from snapshots)', 'engine': 'rel-harness'},
     'C06': {
-        'text': 'Theorems c06_db_holds (whatever prefix of whatever flush was executed, after rollback the tables are those of the last commit), c06_as_if_never / c06_as_if_never_run (the state machine is back in exactly its starting state, so every continuation is versioned as if nothing had been attempted), c06_uow_gone, c06_savepoint_released / c06_savepoint_db / c06_savepoint_no_flush; c06_savepoint_counterexample states the open finding F-SP formally. Supported by fault enumeration on the real code: an OperationalError injected at EVERY statement boundary of generated transactions, three ways of rolling back, retry compared with an uninterrupted twin, savepoint placements, and kill runs (os._exit at statement n on a database file).',
+        'text': 'Theorems c06_db_holds (whatever prefix of whatever flush was executed, after rollback the tables are those of the last commit), c06_as_if_never / c06_as_if_never_run (the state machine is back in exactly its starting state, so every continuation is versioned as if nothing had been attempted), c06_uow_gone, c06_savepoint_released / c06_savepoint_db / c06_savepoint_no_flush; c06_savepoint_counterexample states the open finding F-SP formally. Supported by fault enumeration on the real code: an OperationalError injected at EVERY statement boundary of generated transactions, four ways of ending the failed transaction (session.rollback(), session.close(), connection rollback, a reported disconnect = Connection.invalidate() on a file database followed by session.rollback()), retry compared with an uninterrupted twin, savepoint placements, and kill runs (os._exit at statement n on a database file).',
         'note': TRACE_NOTE + ' PARTIAL: atomicity of the DBMS rollback (SQLite journal) and the bytes on disk after process death cannot be exhibited by a theorem; they are exercised by the kill runs. Savepoint rollback after a versioned flush inside the savepoint is the open finding F-SP.',
         'technique': 'Lean 4 theorems over all event prefixes (rollback restores the committed snapshot and the initial unit-of-work state) + exhaustive statement-boundary fault injection and kill runs on the real code', 'engine': 'fault-harness'},
     'C11': {
@@ -78,8 +78,8 @@ CHECKS.update({
 CHECKS.update({
     'C07': {
         'category': 'other',
-        'text': 'Decided by differential twin runs: every generated program (incl. a malformed stream the database rejects, autoflush, link+unlink of one pair in one transaction, deletes of expired / partially loaded polymorphic objects) is executed with and without make_versioned and compared step by step (outcome of every step; application tables wherever a database transaction ends); an exception coming out of sqlalchemy_continuum that the twin does not raise is a violation; after remove_versioning() further work must create no versioning rows, leave no listener and no manager state. The Lean contribution is only the model-level lemma c07_appData_step / c07_live_independent(_run): the model has no write path from versioning state to application data.',
-        'note': COMMON_NOTE + 'PARTIAL by nature: the property is relational over two runs of Python code; a theorem about the model cannot exhibit an exception raised by listener code. continuum turns active_history on, which may move an autoflush to an earlier step: tables are therefore compared at transaction ends, not after every step.',
+        'text': 'Decided by differential twin runs: every generated program (incl. a malformed stream the database rejects, autoflush, link+unlink of one pair in one transaction, deletes of expired / partially loaded polymorphic objects) is executed with and without make_versioned and compared step by step (outcome of every step; application tables wherever a database transaction ends; the unversioned twin performs exactly the link/unlink operations the versioned run performed); 10% of the programs run with the session joined into an external transaction (create_savepoint); an exception coming out of sqlalchemy_continuum that the twin does not raise is a violation; after remove_versioning() further work must create no versioning rows, leave no listener and no manager state. The Lean contribution is only the model-level lemma c07_appData_step / c07_live_independent(_run): the model has no write path from versioning state to application data.',
+        'note': COMMON_NOTE + 'PARTIAL by nature: the property is relational over two runs of Python code; a theorem about the model cannot exhibit an exception raised by listener code. continuum turns active_history on, which may move an autoflush to an earlier step: tables are therefore compared at transaction ends, not after every step. Open finding F-AH: with conflicting operations inside one transaction active_history changes what the ORM itself writes; a third run (no continuum, active_history switched on for the same attributes) decides by root cause whether a divergence is that finding or a new violation.',
         'technique': 'differential twin execution (with / without versioning) + Lean model-level non-interference lemma', 'engine': 'twin-harness'},
     'C09': {
         'text': 'Theorems c09_projection (for ANY number of sessions on connections of their own and ANY interleaving, what the manager holds for a connection equals the solo run of that connection\'s events - by induction over the interleaved list), c09_frame (an event touches only its own connection\'s state, its session\'s registration, and closed connections), c09_quiescent (when every connection\'s last event ended its transaction no unit of work and no registration is left); c09_shared_connection_counterexample shows what goes wrong when two sessions share one connection. Tied to manager.py by schedules on the real code: k in {2,3} sessions on own SQLite databases sharing the global manager, every step compared with the manager model, final per-session tables compared with solo runs, plus sequential connection re-use.',
